@@ -156,44 +156,55 @@ def propsHas (props : List (String × JS)) (k : String) : Bool := props.any fun 
 
 /-! ### validity -/
 
-def jsv (x : Bool) (fmt : String → String → Bool) (defs : Defs) : Nat → JS → Json → Bool
-  | 0, _, _ => false
-  | n + 1, .mk a oneOf anyOf allOf props addl items items2020, j =>
-    let v := jsv x fmt defs n
-    let self : JS := .mk a oneOf anyOf allOf props addl items items2020
+/-- `$ref` (strict: S2 behind a reference to a collection definition) -/
+def refPart (x : Bool) (defs : Defs) (v : JS → Json → Bool) (a : JAttrs) (j : Json) : Bool :=
+  match a.ref with
+  | some name =>
+    (match lookupDef defs name with
+     | some t => v t j && !(x && jsIsColl t && isEmptyColl j)
+     | none => false)
+  | none => true
+
+/-- `properties` / `additionalProperties` / `items` (strict: S2 on optional members) -/
+def bodyPart (x : Bool) (v : JS → Json → Bool) (a : JAttrs) (props : List (String × JS)) (addl : JAddl)
+    (items items2020 : JItems) (j : Json) : Bool :=
+  match j with
+  | .obj ms =>
+    props.all (fun p => match Json.lookup p.1 ms with
+      | some w => v p.2 w && !(x && !a.required.contains p.1 && jsCollLike p.2 && isEmptyColl w)
+      | none => true) &&
+    ms.all (fun kv => propsHas props kv.1 ||
+      (match addl with
+       | .none => true
+       | .bool b => b
+       | .schema s => v s kv.2))
+  | .arr xs =>
+    (match items2020 with
+     | .one s => xs.all (v s)
+     | _ =>
+       match items with
+       | .one s => xs.all (v s)
+       | .none => xs.all (v emptyJS)
+       | .tuple _ => true)
+  | _ => true
+
+/-- one level of validation; `v` validates the sub-schemas -/
+def jsvBody (x : Bool) (fmt : String → String → Bool) (defs : Defs) (v : JS → Json → Bool) : JS → Json → Bool
+  | .mk a oneOf anyOf allOf props addl items items2020, j =>
     (match a.always with | some b => b | none => true) &&
-    (match a.ref with
-     | some name =>
-       (match lookupDef defs name with
-        | some t => v t j && !(x && jsIsColl t && isEmptyColl j)
-        | none => false)
-     | none => true) &&
+    refPart x defs v a j &&
     typesOK x a.types j && constOKJ a j && enumOKJ a j &&
     allOf.all (fun s => v s j) &&
     (!a.hasAnyOf || anyOf.any (fun s => v s j)) &&
     (!a.hasOneOf || countTrue (oneOf.map fun s => v s j) == 1) &&
     requiredOK a j &&
-    (match j with
-     | .obj ms =>
-       props.all (fun p => match Json.lookup p.1 ms with
-         | some w => v p.2 w && !(x && !a.required.contains p.1 && jsCollLike p.2 && isEmptyColl w)
-         | none => true) &&
-       ms.all (fun kv => propsHas props kv.1 ||
-         (match addl with
-          | .none => true
-          | .bool b => b
-          | .schema s => v s kv.2))
-     | .arr xs =>
-       (match items2020 with
-        | .one s => xs.all (v s)
-        | _ =>
-          match items with
-          | .one s => xs.all (v s)
-          | .none => xs.all (v emptyJS)
-          | .tuple _ => true)
-     | _ => true) &&
+    bodyPart x v a props addl items items2020 j &&
     lengthOK a j && boundsOK a j && formatOK fmt a j &&
-    !(x && jsIsAny self && !anyExact j)
+    !(x && jsIsAny (.mk a oneOf anyOf allOf props addl items items2020) && !anyExact j)
+
+def jsv (x : Bool) (fmt : String → String → Bool) (defs : Defs) : Nat → JS → Json → Bool
+  | 0, _, _ => false
+  | n + 1, s, j => jsvBody x fmt defs (jsv x fmt defs n) s j
 
 /-- validity against the compiled schema -/
 def jsValid (fmt : String → String → Bool) (defs : Defs) (n : Nat) (s : JS) (j : Json) : Bool := jsv false fmt defs n s j
